@@ -15,10 +15,71 @@
          region <fmt> <col> <row> <w> <h>         region into an exact-size canvas
          search <pgno-hex> <subno-hex> <casefold> <regexp> <hex ucs2 pattern> | next <dir> | endsearch
          chsw <nuid> | handler <mask-hex> | unhandler
-         delete                                   vbi_decoder_delete + allocation audit                     */
+         delete                                   vbi_decoder_delete + allocation audit
+
+   Built with -DDEC_STATS and -Wl,--wrap=vbi_convert_page,--wrap=_vbi_cache_get_page (the second, `bounds`, build of
+   checks/C01.py) the harness also counts which Level 2.5 / TOP code paths the cases reached and prints one
+   `DECSTATS k=v ...` line to stderr at exit; the op outputs are the same.                                      */
 #include "hutil.h"
+#ifndef DEC_STATS
 #include "src/libzvbi.h"
+#else
+/* the private headers (they cannot be combined with the generated public libzvbi.h) */
+#include "src/vbi.h"
+#include "src/cache-priv.h"
+#include "src/export.h"
+#include "src/exp-gfx.h"
+#include "src/exp-txt.h"
+#include "src/search.h"
+#include "src/hamm.h"
+static unsigned long st_lookup, st_lookup_miss, st_lookup_pop, st_lookup_drcs, st_lookup_unknown, st_lookup_other,
+	st_conv_pop, st_conv_pop_plain, st_conv_drcs, st_conv_drcs_plain, st_conv_fail, st_ait_lookup, st_ait_hit,
+	st_nav_top, st_nav_top_wrap, st_top_index, st_fetch_l25, st_fetch_ok;
+cache_page *__real__vbi_cache_get_page(vbi_cache *, cache_network *, vbi_pgno, vbi_subno, vbi_subno);
+cache_page *__real_vbi_convert_page(vbi_decoder *, cache_page *, vbi_bool, enum ttx_page_function);
+/* calls from other translation units only (teletext.c: object / DRCS look-up with mask 0xF, AIT look-up with 0x3f7f) */
+cache_page *__wrap__vbi_cache_get_page(vbi_cache *ca, cache_network *cn, vbi_pgno pgno, vbi_subno subno, vbi_subno mask)
+{
+	cache_page *cp = __real__vbi_cache_get_page(ca, cn, pgno, subno, mask);
+	if (mask == 0x000F) {
+		++st_lookup;
+		if (!cp) ++st_lookup_miss;
+		else switch (cp->function) {
+		case PAGE_FUNCTION_UNKNOWN: ++st_lookup_unknown; break;
+		case PAGE_FUNCTION_POP: case PAGE_FUNCTION_GPOP: ++st_lookup_pop; break;
+		case PAGE_FUNCTION_DRCS: case PAGE_FUNCTION_GDRCS: ++st_lookup_drcs; break;
+		default: ++st_lookup_other; break;
+		}
+	} else if (mask == 0x3f7f) {
+		++st_ait_lookup;
+		if (cp && cp->function == PAGE_FUNCTION_AIT) ++st_ait_hit;
+	}
+	return cp;
+}
+/* teletext.c only: conversion of a cached page of unknown function when a formatted page names it as POP / DRCS */
+cache_page *__wrap_vbi_convert_page(vbi_decoder *vbi, cache_page *vtp, vbi_bool cached, enum ttx_page_function fn)
+{
+	int plain = cached && vtp->function == PAGE_FUNCTION_UNKNOWN && !vtp->x26_designations && !(vtp->x28_designations & 0x13);
+	cache_page *r = __real_vbi_convert_page(vbi, vtp, cached, fn);
+	if (cached) {
+		if (!r) ++st_conv_fail;
+		else if (fn == PAGE_FUNCTION_POP || fn == PAGE_FUNCTION_GPOP) { ++st_conv_pop; st_conv_pop_plain += plain; }
+		else if (fn == PAGE_FUNCTION_DRCS || fn == PAGE_FUNCTION_GDRCS) { ++st_conv_drcs; st_conv_drcs_plain += plain; }
+	}
+	return r;
+}
+static void stats_print(void)
+{
+	fprintf(stderr, "DECSTATS fetch_ok=%lu fetch_l25=%lu objdrcs_lookup=%lu lookup_miss=%lu lookup_pop=%lu lookup_drcs=%lu "
+		"lookup_unknown=%lu lookup_other=%lu conv_pop=%lu conv_pop_plain=%lu conv_drcs=%lu conv_drcs_plain=%lu conv_fail=%lu "
+		"ait_lookup=%lu ait_hit=%lu nav_top=%lu nav_top_no_block_below=%lu top_index=%lu\n",
+		st_fetch_ok, st_fetch_l25, st_lookup, st_lookup_miss, st_lookup_pop, st_lookup_drcs, st_lookup_unknown, st_lookup_other,
+		st_conv_pop, st_conv_pop_plain, st_conv_drcs, st_conv_drcs_plain, st_conv_fail, st_ait_lookup, st_ait_hit,
+		st_nav_top, st_nav_top_wrap, st_top_index);
+}
+#endif
 extern size_t __sanitizer_get_current_allocated_bytes(void) __attribute__((weak));
+extern void __sanitizer_print_memory_profile(size_t, size_t) __attribute__((weak));
 static size_t heap_now(void) { return __sanitizer_get_current_allocated_bytes ? __sanitizer_get_current_allocated_bytes() : 0; }
 
 static vbi_decoder *dec;
@@ -91,12 +152,26 @@ static int canvas_bytes_per_pixel(int fmt)
 }
 
 /* one-time global allocations of the library (export module list, iconv, gettext, ...) must not count as leaks */
+#include <iconv.h>
+static void warmup_iconv(void)
+{
+	/* glibc loads a gconv module per character set on first use and unloads it lazily some time after the last
+	   descriptor was closed: the heap level would move up and down between cases.  One descriptor per character set
+	   the exporters can ask for (exp-html.c picks it from the page's language) stays open for the process lifetime. */
+	static const char *cs[] = { "iso-8859-1", "iso-8859-2", "iso-8859-4", "iso-8859-5", "koi8-r", "koi8-u", "iso-8859-6",
+		"iso-8859-7", "iso-8859-8", "iso-8859-9", "iso-10646", "UTF-8", "UCS-2", "ISO-8859-15", "ASCII" };
+	static iconv_t keep[2 * sizeof cs / sizeof *cs];
+	unsigned i;
+	for (i = 0; i < sizeof cs / sizeof *cs; ++i) { keep[2 * i] = iconv_open(cs[i], "UCS-2"); keep[2 * i + 1] = iconv_open("UCS-2", cs[i]); }
+	(void) keep;
+}
 static void warmup(void)
 {
 	static const char *mods[] = { "text", "html", "ppm", "png", "xpm", "vtx", "ansi", "string", "mpsub", "qttext", "realtext", "sami", "subrip", "subviewer" };
 	unsigned i; uint16_t pat[2] = { 'a', 0 }; vbi_sliced s; vbi_page *p = calloc(1, sizeof *p);
 	vbi_decoder *d = vbi_decoder_new();
 	vbi_search *sr;
+	warmup_iconv();
 	for (i = 0; i < sizeof mods / sizeof *mods; ++i) {
 		char *es = NULL; vbi_export *ex = vbi_export_new(mods[i], &es); free(es);
 		if (ex) { void *buf = NULL; size_t sz = 0;
@@ -105,6 +180,31 @@ static void warmup(void)
 	}
 	memset(&s, 0, sizeof s); s.id = VBI_SLICED_TELETEXT_B; s.line = 7;
 	vbi_decode(d, &s, 1, 0.0);
+	/* a Teletext page through every exporter, print and render too (the exporters of Teletext pages make further
+	   one-time allocations; the harness process is restarted after every crash, so this cannot be left to the corpus) */
+	vbi_event_handler_register(d, -1, handler, NULL);
+	for (i = 0; i < 3; ++i) {
+		int k, page = i < 2 ? 0x00 : 0x01;
+		s.data[0] = vbi_ham8(1); s.data[1] = vbi_ham8(0);
+		s.data[2] = vbi_ham8(page & 15); s.data[3] = vbi_ham8(page >> 4);
+		for (k = 4; k < 10; ++k) s.data[k] = vbi_ham8(0);
+		for (k = 10; k < 42; ++k) s.data[k] = vbi_par8(i == 0 ? ' ' : 'a' + k % 20);
+		vbi_decode(d, &s, 1, 1.0 + i * 0.04);
+	}
+	if (vbi_fetch_vt_page(d, p, 0x100, VBI_ANY_SUBNO, VBI_WST_LEVEL_3p5, 25, TRUE)) {
+		for (i = 0; i < sizeof mods / sizeof *mods; ++i) {
+			char *es = NULL; vbi_export *ex = vbi_export_new(mods[i], &es); free(es);
+			if (ex) { void *buf = NULL; size_t sz = 0;
+				if (vbi_export_alloc(ex, &buf, &sz, p)) free(buf);
+				vbi_export_delete(ex); }
+		}
+		{ char buf[64]; vbi_link ld; uint8_t *cv = malloc(41 * 12 * 25 * 10 * 4);
+		  vbi_print_page(p, buf, sizeof buf, "UTF-8", 1, 1);
+		  vbi_draw_vt_page(p, VBI_PIXFMT_RGBA32_LE, cv, 1, 1); free(cv);
+		  vbi_resolve_home(p, &ld); }
+		vbi_unref_page(p);
+	}
+	{ char t[41]; vbi_subno sn; char *lang; vbi_page_title(d, 0x100, 0, t); vbi_classify_page(d, 0x100, &sn, &lang); }
 	sr = vbi_search_new(d, 0x100, VBI_ANY_SUBNO, pat, 0, 1, NULL);
 	if (sr) { vbi_page *res; vbi_search_next(sr, &res, 1); vbi_search_delete(sr); }
 	{ char buf[64]; if (vbi_fetch_cc_page(d, p, 1, TRUE)) { vbi_print_page(p, buf, sizeof buf, "UTF-8", 1, 1); vbi_unref_page(p); } }
@@ -115,6 +215,9 @@ int main(void)
 {
 	int r;
 	verbose = !!getenv("DEC_VERBOSE");
+#ifdef DEC_STATS
+	atexit(stats_print);
+#endif
 	warmup();
 	fresh();
 	while ((r = h_next())) {
@@ -141,6 +244,20 @@ int main(void)
 			memset(pg, 0, sizeof *pg);
 			pg_valid = vbi_fetch_vt_page(dec, pg, (vbi_pgno) a, (vbi_subno) b, lv[c & 3], (int) d, (vbi_bool) e);
 			if (verbose) fprintf(stderr, "fetch %llx.%llx -> %d\n", a, b, pg_valid);
+#ifdef DEC_STATS
+			if (pg_valid) {
+				++st_fetch_ok; if ((c & 3) >= 2) ++st_fetch_l25;
+				if (a == 0x900) ++st_top_index;
+				else if (e && d >= 25 && dec->cn->have_top && pg->pgno >= 0x100 && pg->pgno <= 0x8FF) {
+					int i, blk = 0;
+					for (i = pg->pgno; i >= 0x100; --i) {
+						int t = cache_network_page_stat(dec->cn, i)->page_type;
+						if (t == VBI_TOP_BLOCK || t == VBI_TOP_GROUP) { blk = 1; break; }
+					}
+					++st_nav_top; if (!blk) ++st_nav_top_wrap;
+				}
+			}
+#endif
 			printf("ok\n");
 		} else if (H_IS(0, "fetchcc") && NUM(1, a)) {
 			drop_page();
@@ -258,7 +375,8 @@ int main(void)
 			kill_all();
 			now = heap_now();
 			if (now <= heap0) printf("ok freed\n");
-			else printf("ok leak %zu\n", now - heap0);
+			else { printf("ok leak %zu\n", now - heap0);
+				if (verbose && __sanitizer_print_memory_profile) __sanitizer_print_memory_profile(100, 30); }
 		} else printf("rej op\n");
 		fflush(stdout);
 	}
